@@ -5,7 +5,8 @@
 P=$(readlink -f "$1"); ID=$2; TIER=${3:-quick}; SEED=${4:-1}
 D=$(mktemp -d /tmp/sr-$ID.XXXXXX)
 trap 'rm -rf "$D"' EXIT
-rsync -a /repo/ "$D/repo/" && rsync -a --exclude .git --exclude replays /verif/ "$D/verif/" || exit 3
+rsync -a --exclude '.git/worktrees' /repo/ "$D/repo/"; r=$?; [ $r = 0 ] || [ $r = 24 ] || exit 3
+rsync -a --exclude .git --exclude replays /verif/ "$D/verif/"; r=$?; [ $r = 0 ] || [ $r = 24 ] || exit 3
 ( cd "$D/repo" && git reset -q --hard HEAD && git clean -fdq && git apply "$P" ) || { echo "patch does not apply"; exit 3; }
 ( cd "$D/verif" && VERIF_SEED=$SEED VERIF_REPO="$D/repo" timeout 3600 ./check "$ID" "$TIER" ); rc=$?
 echo "check exit=$rc"
